@@ -14,7 +14,7 @@ H._G['prog'] = prog
 t = time.time()
 r = mod.case(prog, json.loads(sys.argv[1]))
 print('wall', round(time.time()-t,1), r.get('kinds'), {k: r[k] for k in ('served','pairs','wire_pairs','compared','reads') if k in r})
-for v in r['violations'][:6]: print('V', v['key'], v['text'][:300])
+for v in r['violations'][:40]: print('V', v['key'], v['text'][:300])
 for v in r['inconclusive'][:4]: print('I', str(v)[:400])
-" "$PARAMS" 2>&1 | grep -v "^\[mirse\]" | tail -12 | cut -c1-500
+" "$PARAMS" 2>&1 | grep -v "^\[mirse\]" | tail -${TAILN:-12} | cut -c1-500
 rm -rf $ISO
